@@ -26,25 +26,25 @@ type violation struct {
 }
 
 type report struct {
-	pd    *PropDef
-	tier  string
-	seed  int64
-	wall  float64
-	sum   *runSummary
-	viols []*violation
-	incon []string
-	vacuous []string
-	cross []string // cross-solver disagreements
-	crossChecked int
-	confRuns, confMismatch int
-	confNotes []string
-	counts map[sym.ObStatus]int
-	samples []interface{}
+	pd                           *PropDef
+	tier                         string
+	seed                         int64
+	wall                         float64
+	sum                          *runSummary
+	viols                        []*violation
+	incon                        []string
+	vacuous                      []string
+	cross                        []string // cross-solver disagreements
+	crossChecked                 int
+	confRuns, confMismatch       int
+	confNotes                    []string
+	counts                       map[sym.ObStatus]int
+	samples                      []interface{}
 	paths, instrs, forks, merges int
-	labelSet map[string]bool
-	assumptions map[string]bool
-	slowest float64
-	replayer string
+	labelSet                     map[string]bool
+	assumptions                  map[string]bool
+	slowest                      float64
+	replayer                     string
 }
 
 func newReport(pd *PropDef, tier string, seed int64) *report {
@@ -88,6 +88,13 @@ func (r *report) absorb(sum *runSummary, solver string) {
 				v.ReplayPath = filepath.Join(dir, safeRe.ReplaceAllString(jr.Job.ID+"__"+ob.Label, "_")+".json")
 				if ob.Status == sym.ObKnown {
 					v.ReplayPath = strings.TrimSuffix(v.ReplayPath, ".json") + "__known.json"
+				}
+				if r.usedPaths == nil {
+					r.usedPaths = map[string]int{}
+				}
+				r.usedPaths[v.ReplayPath]++
+				if n := r.usedPaths[v.ReplayPath]; n > 1 { // same obligation violated on another structural path
+					v.ReplayPath = strings.TrimSuffix(v.ReplayPath, ".json") + fmt.Sprintf("__path%d.json", n)
 				}
 				rf := map[string]interface{}{"property": r.pd.ID, "job": jr.Job, "label": ob.Label, "note": ob.Note, "tags": ob.Tags}
 				if ob.Model != nil {
@@ -424,43 +431,43 @@ func (r *report) writeEvidence(nviol int) {
 		}
 	}
 	cov := map[string]interface{}{
-		"states":                        max1(r.paths),
-		"transitions":                   max1(r.instrs),
-		"traces_validated_against_impl": r.confRuns + replayed,
-		"samples":                       samples,
-		"obligations":                   obl,
-		"discharged":                    r.counts[sym.ObDischarged] + r.counts[sym.ObTrivial],
-		"discharged_by_solver":          r.counts[sym.ObDischarged],
-		"closed_by_simplifier":          r.counts[sym.ObTrivial],
-		"violated":                      r.counts[sym.ObViolated],
-		"known_findings_witnessed":      known,
-		"inconclusive":                  len(r.incon),
-		"inconclusive_detail":           firstN(r.incon, 20),
-		"jobs":                          r.sum.jobs,
-		"distinct_obligation_labels":    keys(r.labelSet),
-		"symbolic_paths":                r.paths,
-		"ssa_instructions_executed":     r.instrs,
-		"forks":                         r.forks,
-		"merges":                        r.merges,
-		"queries":                       r.sum.solver.Queries,
-		"solver_time_s":                 round2(r.sum.solver.SolverSec),
-		"slowest_query_s":               round2(r.slowest),
-		"solvers":                       solvers,
-		"cross_solver_obligations":      r.crossChecked,
-		"cross_solver_disagreements":    len(r.cross),
-		"conformance_runs":              r.confRuns,
-		"conformance_mismatches":        r.confMismatch,
-		"conformance_notes":             firstN(r.confNotes, 10),
-		"counterexamples_replayed":      replayed,
-		"functions_encoded":             keys(r.sum.functions),
-		"stdlib_models_used":            keys(r.sum.models),
+		"states":                            max1(r.paths),
+		"transitions":                       max1(r.instrs),
+		"traces_validated_against_impl":     r.confRuns + replayed,
+		"samples":                           samples,
+		"obligations":                       obl,
+		"discharged":                        r.counts[sym.ObDischarged] + r.counts[sym.ObTrivial],
+		"discharged_by_solver":              r.counts[sym.ObDischarged],
+		"closed_by_simplifier":              r.counts[sym.ObTrivial],
+		"violated":                          r.counts[sym.ObViolated],
+		"known_findings_witnessed":          known,
+		"inconclusive":                      len(r.incon),
+		"inconclusive_detail":               firstN(r.incon, 20),
+		"jobs":                              r.sum.jobs,
+		"distinct_obligation_labels":        keys(r.labelSet),
+		"symbolic_paths":                    r.paths,
+		"ssa_instructions_executed":         r.instrs,
+		"forks":                             r.forks,
+		"merges":                            r.merges,
+		"queries":                           r.sum.solver.Queries,
+		"solver_time_s":                     round2(r.sum.solver.SolverSec),
+		"slowest_query_s":                   round2(r.slowest),
+		"solvers":                           solvers,
+		"cross_solver_obligations":          r.crossChecked,
+		"cross_solver_disagreements":        len(r.cross),
+		"conformance_runs":                  r.confRuns,
+		"conformance_mismatches":            r.confMismatch,
+		"conformance_notes":                 firstN(r.confNotes, 10),
+		"counterexamples_replayed":          replayed,
+		"functions_encoded":                 keys(r.sum.functions),
+		"stdlib_models_used":                keys(r.sum.models),
 		"stdlib_globals_read_uninitialised": keys(r.sum.stdGlobals),
-		"bounds":                        r.pd.Bounds,
-		"outside_claim":                 r.pd.Outside,
-		"exhaustive":                    r.pd.Exhaustive,
-		"technique":                     "symbolic execution of go/ssa of /repo (regenerated this run) + SMT (QF_ABV) verdict per obligation",
-		"explanation":                   r.pd.Explanation,
-		"worker_init_s":                 round2(r.sum.initSec),
+		"bounds":                            r.pd.Bounds,
+		"outside_claim":                     r.pd.Outside,
+		"exhaustive":                        r.pd.Exhaustive,
+		"technique":                         "symbolic execution of go/ssa of /repo (regenerated this run) + SMT (QF_ABV) verdict per obligation",
+		"explanation":                       r.pd.Explanation,
+		"worker_init_s":                     round2(r.sum.initSec),
 	}
 	assum := append([]string{}, r.pd.Assumptions...)
 	assum = append(assum, keys(r.assumptions)...)
